@@ -2,6 +2,8 @@
 
 package codec
 
+import "math/bits"
+
 // Engine self-check (registered under C09, whose claims rest on the engine's model of Go run-time panics):
 // corner cases of Go's semantics — slice bounds, indexing, division, shifts, conversions, nil maps, append
 // aliasing, type assertions — each driven by symbolic operands over a small range, the expected Go
@@ -26,9 +28,9 @@ func zzscTry(f func() uint64) (v uint64, panicked bool) {
 	return f(), false
 }
 
-//zz:opt loop=64 panicok=1 require=slice-high,slice-low-high,slice-max,index-slice,index-array,index-string,div,mod,mindiv,shl,shr,shift-neg,conv,nilmap,append-alias,copy,assert,makeslice,string-slice,wrap
+//zz:opt loop=300 panicok=1 require=slice-high,slice-low-high,slice-max,index-slice,index-array,index-string,div,mod,mindiv,shl,shr,shift-neg,conv,nilmap,append-alias,copy,assert,makeslice,string-slice,wrap,table256
 func zzH_C09_engine_selfcheck(t *zzT) {
-	c := t.Choice("case", 20)
+	c := t.Choice("case", 21)
 	n32 := t.I32("n")
 	t.Assume(n32 >= -2 && n32 <= 5)
 	n := int(n32)
@@ -179,6 +181,23 @@ func zzH_C09_engine_selfcheck(t *zzT) {
 		t.Assert(p == (n < 0 || m < 0 || m > 3 || n > m) && (p || v == uint64(m-n)), "string slice panics iff bounds are negative, inverted or beyond len")
 		t.ObserveBool("p", p)
 		t.Reach("string-slice")
+	case 19:
+		// a 256-entry table indexed by a uint8: every index is in range (the length does not fit the index width)
+		var tab [256]uint8
+		for i := range tab {
+			tab[i] = uint8(255 - i)
+		}
+		x := t.U8("x")
+		v, p := zzscTry(func() uint64 { return uint64(tab[x]) })
+		t.Assert(!p && v == uint64(255-x), "a 256-entry array indexed by a uint8 never panics")
+		ntz := bits.TrailingZeros8(x) // table lookup in a 256-byte constant string
+		if x == 0 {
+			t.Assert(ntz == 8, "bits.TrailingZeros8(0) = 8")
+		} else {
+			t.Assert(ntz >= 0 && ntz < 8 && (x>>uint(ntz))&1 == 1 && x&((1<<uint(ntz))-1) == 0, "bits.TrailingZeros8 (constant string table): position of the lowest set bit")
+		}
+		t.ObserveU64("ntz", uint64(ntz))
+		t.Reach("table256")
 	default:
 		x, y := t.U8("x"), t.U8("y")
 		sum := x + y
